@@ -8,6 +8,7 @@ import (
 	"math/rand/v2"
 	"sort"
 	"strings"
+	"sync"
 	"testing"
 
 	"github.com/platinummonkey/go-concurrency-limits/core"
@@ -497,6 +498,77 @@ func max1(v int) int {
 	return v
 }
 
+// releaseWindow: total exactly at the limit, two partitions each exactly at their share.  One goroutine releases a
+// token of partition a; another acquires for b and - only after that call returned - for a.  A grant for b can only
+// be a borrowed one (b is at its share), so the release had happened when it was decided; a then has fewer outstanding
+// tokens than its share and the acquire for a that started afterwards must be admitted.
+func releaseWindow(idx int64, r *rand.Rand) {
+	kind := []string{"lookup", "predicate"}[r.IntN(2)]
+	rounds := 1500
+	for round := 0; round < rounds; round++ {
+		var st core.Strategy
+		if kind == "lookup" {
+			ps := map[string]*strategy.LookupPartition{
+				"a": strategy.NewLookupPartitionWithMetricRegistry("a", 0.5, 1, core.EmptyMetricRegistryInstance),
+				"b": strategy.NewLookupPartitionWithMetricRegistry("b", 0.5, 1, core.EmptyMetricRegistryInstance),
+			}
+			s, err := strategy.NewLookupPartitionStrategyWithMetricRegistry(ps, nil, 2, core.EmptyMetricRegistryInstance)
+			if err != nil {
+				panic(err)
+			}
+			st = s
+		} else {
+			ps := []*strategy.PredicatePartition{
+				strategy.NewPredicatePartitionWithMetricRegistry("a", 0.5, matchers.StringPredicateMatcher("a", false), core.EmptyMetricRegistryInstance),
+				strategy.NewPredicatePartitionWithMetricRegistry("b", 0.5, matchers.StringPredicateMatcher("b", false), core.EmptyMetricRegistryInstance),
+			}
+			s, err := strategy.NewPredicatePartitionStrategyWithMetricRegistry(ps, 2, core.EmptyMetricRegistryInstance)
+			if err != nil {
+				panic(err)
+			}
+			st = s
+		}
+		ta, okA := st.TryAcquire(ctxKey("a"))
+		tb, okB := st.TryAcquire(ctxKey("b"))
+		if !okA || !okB {
+			rt.Violation("C03/"+kind+"/guaranteed-share-refused", idx, rt.J{"round": round})
+			return
+		}
+		var wg sync.WaitGroup
+		bar := make(chan struct{})
+		var b2, a2 core.StrategyToken
+		var okB2, okA2 bool
+		wg.Add(2)
+		go func() { defer wg.Done(); <-bar; ta.Release() }()
+		go func() {
+			defer wg.Done()
+			<-bar
+			// keep asking for b until the freed slot can be borrowed: the grant comes at the earliest instant it can
+			for i := 0; i < 2000000 && !okB2; i++ {
+				b2, okB2 = st.TryAcquire(ctxKey("b"))
+			}
+			a2, okA2 = st.TryAcquire(ctxKey("a"))
+		}()
+		close(bar)
+		wg.Wait()
+		rt.Count("release_window_rounds", 1)
+		if okB2 {
+			rt.Count("release_window_rounds_with_a_borrowed_grant", 1)
+		}
+		if okB2 && !okA2 {
+			rt.Violation("C03/"+kind+"/refused-below-share-while-a-release-was-in-progress", idx, rt.J{"round": round,
+				"meaning": "partition b (at its share) was granted a borrowed slot, so the release of a's token had freed it; the following request for a - with 0 outstanding against a share of 1 - was refused"})
+			return
+		}
+		for _, tk := range []core.StrategyToken{tb, b2, a2} {
+			if tk != nil && tk.IsAcquired() {
+				tk.Release()
+			}
+		}
+	}
+	rt.Distinct(fmt.Sprintf("relwin|%s|%d", kind, idx))
+}
+
 func TestCheck(t *testing.T) {
 	rt.Cases(17000, 1700000, func(idx int64) {
 		r := rt.CaseRand(3, idx)
@@ -504,6 +576,8 @@ func TestCheck(t *testing.T) {
 		switch m := idx % 17; {
 		case m < 14:
 			sequential(idx, r)
+		case m == 14 && idx%170 == 14:
+			releaseWindow(idx, r)
 		case m == 14:
 			storm(idx, r)
 		default:
